@@ -239,6 +239,10 @@ class BaseInput(BasePort):
         # is hard to catch here.
         self._check_callback()
         while True:
+            if self.closed and not self._messages:
+                # The port closed before or between receive() calls.
+                return
+
             try:
                 yield self.receive()
             except OSError:
